@@ -256,12 +256,17 @@ def run(ctx):
     # systematic: every declaration form x position relative to the 1024-byte prescan window x encoding
     metas = ["<meta charset=x>", "<meta CHARSET=x>", "<meta http-equiv=content-type content='text/html; charset=x'>",
              "<meta http-equiv=Content-Type content='text/html; charset=x'>", "<meta HTTP-EQUIV=CONTENT-TYPE CONTENT='text/html; charset=x'>",
-             "<meta content='text/html; charset=x' http-equiv=Content-Type>", ""]
+             "<meta content='text/html; charset=x' http-equiv=Content-Type>", "",
+             "<meta content='text/html; charset=x' http-equiv=Content-Type><meta charset=x>",
+             "<meta charset=x><meta content='text/html; charset=x' http-equiv=content-type>",
+             "<meta name=a content=b><meta content='text/html;charset=x' http-equiv='CONTENT-TYPE' lang=en>"]
     for m in metas:
         for pad in (0, 1100):
             for enc in ("utf-8", "koi8-r", "windows-1251", "shift_jis", "iso-8859-2"):
                 for omit in (False, True):
-                    text = ("<!DOCTYPE html><html><head><title>" + "t" * pad + "</title>" + m +
+                    # the old declaration names a REAL other encoding: a declaration left stale must be visible to the reader
+                    mm = m.replace("charset=x", "charset=" + ("koi8-r" if enc != "koi8-r" else "windows-1251"))
+                    text = ("<!DOCTYPE html><html><head><title>" + "t" * pad + "</title>" + mm +
                             "</head><body><p title='Привет'>héllo — Ж</p></body></html>")
                     roundtrip(ctx, text, enc, omit)
     # characters the output encoding cannot express become character references: every character that has a named
